@@ -25,7 +25,7 @@ from .variants import VARIANTS
 ALL_PROPS = [f'C{i:02d}' for i in range(1, 21)]
 
 
-MODERNISE_KINDS = ('suppress', 'else_nest', 'else_unnest', 'cmp_flip', 'tern_expand', 'aug_expand', 'lit_ctor', 'ret_local', 'walrus', 'tern_fold', 'ann_assign')
+MODERNISE_KINDS = ('suppress', 'else_nest', 'else_unnest', 'cmp_flip', 'tern_expand', 'aug_expand', 'lit_ctor', 'ret_local', 'walrus', 'tern_fold', 'ann_assign', 'lock_unfold')
 _TERMINAL = None
 
 
@@ -84,6 +84,9 @@ def modernise_sites(tree, kind):
                     ok = isinstance(st, ast.Assign) and len(st.targets) == 1 and isinstance(st.targets[0], (ast.Name, ast.Attribute)) and \
                         not isinstance(parent, (ast.ClassDef, ast.Module)) and \
                         not (isinstance(st.targets[0], ast.Name) and _declared_global(tree, st))
+                elif kind == 'lock_unfold':
+                    ok = isinstance(st, ast.With) and len(st.items) == 1 and st.items[0].optional_vars is None and 'lock' in ast.unparse(st.items[0].context_expr).lower() \
+                        and not isinstance(st.items[0].context_expr, ast.Call)
                 elif kind == 'ret_local':
                     ok = isinstance(st, ast.Return) and st.value is not None and not isinstance(st.value, (ast.Name, ast.Constant))
                 if ok:
@@ -211,6 +214,12 @@ def modernise(tree, kind, lineno, col):
                     lst[i] = ast.Assign(targets=[st.body[0].targets[0]], value=ast.IfExp(test=st.test, body=st.body[0].value, orelse=st.orelse[0].value))
                 elif kind == 'ann_assign':
                     lst[i] = ast.AnnAssign(target=st.targets[0], annotation=ast.Constant(value='object'), value=st.value, simple=1 if isinstance(st.targets[0], ast.Name) else 0)
+                elif kind == 'lock_unfold':
+                    import copy
+                    x = st.items[0].context_expr
+                    acq = ast.Expr(value=ast.Call(func=ast.Attribute(value=x, attr='acquire', ctx=ast.Load()), args=[], keywords=[]))
+                    rel = ast.Expr(value=ast.Call(func=ast.Attribute(value=copy.deepcopy(x), attr='release', ctx=ast.Load()), args=[], keywords=[]))
+                    lst[i:i + 1] = [acq, ast.Try(body=st.body, handlers=[], orelse=[], finalbody=[rel])]
                 elif kind == 'ret_local':
                     lst[i:i + 1] = [ast.Assign(targets=[ast.Name(id='_rv', ctx=ast.Store())], value=st.value), ast.Return(value=ast.Name(id='_rv', ctx=ast.Load()))]
                 elif kind == 'aug_expand':
